@@ -223,7 +223,7 @@ def run(ck):
         return ck.finish(level="proof")
 
     gen = os.path.join(ck.work, "workloads.txt")
-    vlib.sh([vlib.harness_bin("c04"), "gen", str(3 if quick else 6), gen])
+    vlib.sh([vlib.harness_bin("c04"), "gen", str(3 if quick else 20), gen])
     batches = []
     if os.path.exists(CORPUS):
         batches.append(run_workloads(ck, CORPUS, "corpus", False))   # corpus: sampled prefixes in both tiers
